@@ -415,7 +415,7 @@ func Finish(c *Ctx, res *Result, runErr error) int {
 		fmt.Printf("VIOLATION property=%s replay=%s\n", c.Prop, path)
 		what := v.What
 		if len(what) > 600 {
-			what = what[:600] + "..."
+			what = strings.ToValidUTF8(what[:600], "") + "..."
 		}
 		fmt.Printf("  key=%s : %s\n", v.Key, what)
 	}
